@@ -5,7 +5,7 @@
        K nx ny nz sx sy sz px py pz ; v ; v…  -> CHECK true|false   (faces_once_check on the given visits,
                                                    v = "P a s l t r" or "Q a sgn s l")
    argv.(1) = "cells": the line protocol of harness/c04/cellops_harness.cpp (ops F B U R are modelled; a line with another
-       op is answered by "?") *)
+       op is answered by "?"); after the cell fields "# tags": which limiter / clamp / branch was taken (coverage only) *)
 open C04_model
 
 let fl s = Float64.of_float (Int64.float_of_bits (Scanf.sscanf s "%Lx" (fun x -> x)))
@@ -100,32 +100,44 @@ let cells_main () =
       let gamma = fl h.(1) and maxv = fl h.(2) in
       let cells = Array.init n (fun i -> load (Array.of_list (toks grp.(1 + i)))) in
       let ok = ref true in
+      let tags = ref [] in
+      let tag t = tags := t :: !tags in
+      let lt a b = Float64.to_float a < Float64.to_float b in
       for g = 1 + n to Array.length grp - 1 do
         let t = Array.of_list (toks grp.(g)) in
         if Array.length t > 0 then begin
           match t.(0) with
           | "F" ->
             let i = zi t.(1) and l = int_of_string t.(2) and r = int_of_string t.(3) in
-            let f = f_pair_flux pw cst gamma i (fst cells.(l)) (fst cells.(r)) (fl t.(4)) (fl t.(5)) (fl t.(6)) in
+            let (f, ff) = f_pair_flux pw cst gamma i (fst cells.(l)) (fst cells.(r)) (fl t.(4)) (fl t.(5)) (fl t.(6)) in
+            tag (if lt ff (Float64.of_float 1.0) then "Fff<1" else if Float64.to_float f.c0 = 0.0 then "Fzero" else "Fff=1");
             cells.(l) <- (f_bump pw cst (fst cells.(l)) false f, snd cells.(l));
             cells.(r) <- (f_bump pw cst (fst cells.(r)) true f, snd cells.(r))
           | "B" ->
             let k = zi t.(1) and i = zi t.(2) and l = int_of_string t.(3) in
-            let f = f_ghost_flux pw cst gamma k i (fst cells.(l)) (fl t.(4)) (fl t.(5)) (fl t.(6)) in
+            let (f, ff) = f_ghost_flux pw cst gamma k i (fst cells.(l)) (fl t.(4)) (fl t.(5)) (fl t.(6)) in
+            tag ("B" ^ t.(1) ^ (if lt ff (Float64.of_float 1.0) then "ff<1" else "ff=1"));
             cells.(l) <- (f_bump pw cst (fst cells.(l)) false f, snd cells.(l))
           | "U" ->
             let l = int_of_string t.(1) in
-            cells.(l) <- (f_update pw cst dblmax (fst cells.(l)) (fl t.(2)), snd cells.(l))
+            let c = fst cells.(l) in
+            let dtf = Float64.to_float (fl t.(2)) in
+            let q0 = Float64.to_float c.cons.c0 +. Float64.to_float c.dcons.c0 *. dtf in
+            let c' = f_update pw cst dblmax c (fl t.(2)) in
+            tag (if q0 < 0.0 then "UclampM" else if Float64.to_float c'.cons.c4 = 0.0 && Float64.to_float c.cons.c4 <> 0.0 then "UclampE" else "Uplain");
+            cells.(l) <- (c', snd cells.(l))
           | "R" ->
             let l = int_of_string t.(1) in
             let (tt, xh) = snd cells.(l) in
             (* _pressure_conversion_factor = k / m_H as computed by the Hydro constructor *)
             let pcf = Float64.of_float (1.38064852e-23 /. 1.672621898e-27) in
-            cells.(l) <- (f_setprim pw cst gamma maxv pcf tt xh (fst cells.(l)) (fl t.(2)), snd cells.(l))
+            let c' = f_setprim pw cst gamma maxv pcf tt xh (fst cells.(l)) (fl t.(2)) in
+            tag (if not (Float64.to_float (fst cells.(l)).cons.c0 > 0.0) then "Rempty" else if Float64.to_float maxv < 1e90 then "Rvlim" else "Rplain");
+            cells.(l) <- (c', snd cells.(l))
           | _ -> ok := false
         end
       done;
-      if !ok then print_endline (String.concat "" (Array.to_list (Array.map dump cells))) else print_endline "?"
+      if !ok then print_endline (String.concat "" (Array.to_list (Array.map dump cells)) ^ "# " ^ String.concat " " (List.rev !tags)) else print_endline "?"
     done
   with End_of_file -> ()
 
